@@ -114,6 +114,8 @@ SS_CREATE_FOR_SLOT = {'main': 'src/superscalar.cpp', 'keep': ['SuperscalarInstru
 
 SS_SCHEDULE_UOP = {'main': 'src/superscalar.cpp', 'keep': ['scheduleUop'], 'opaque_classes': ['MacroOp', 'SuperscalarInstructionInfo', 'DecoderBuffer', 'Blake2Generator', 'SuperscalarInstruction', 'RegisterInfo'], 'drop_vars': ['SuperscalarInstruction::Null', 'SuperscalarInstruction_Null', '\\bslot_\\w+', 'buffer\\d', 'decodeBuffers?', '\\bNull\\b', 'DecoderBuffer::\\w+', 'trace'], 'global_rewrites': [{'name': '2-D array reference parameter -> array parameter', 'pattern': 'ExecutionPort::type\\(&portBusy\\)\\[CYCLE_MAP_SIZE\\]\\[3\\]', 'repl': 'int portBusy[CYCLE_MAP_SIZE][3]'}, {'name': 'ExecutionPort::type -> int', 'pattern': 'ExecutionPort::type', 'repl': 'int'}, {'name': 'ExecutionPort constants', 'pattern': 'ExecutionPort::(P\\w+|Null)', 'repl': 'ExecutionPort_\\1'}], 'pre_rewrites': [{'name': 'trace output dropped', 'pattern': 'if \\(trace\\) std::cout.*?std::endl;', 'repl': ';'}], 'defines': ['commit=RXV_COMMIT']}
 
+SS_SCHEDULE_MOP = {'main': 'src/superscalar.cpp', 'keep': ['scheduleMop'], 'opaque_classes': ['MacroOp', 'SuperscalarInstructionInfo', 'DecoderBuffer', 'Blake2Generator', 'SuperscalarInstruction', 'RegisterInfo'], 'drop_vars': ['SuperscalarInstruction::Null', 'SuperscalarInstruction_Null', '\\bslot_\\w+', 'buffer\\d', 'decodeBuffers?', '\\bNull\\b', 'DecoderBuffer::\\w+', 'trace'], 'defines': ['commit=RXV_COMMIT'], 'global_rewrites': [{'name': '2-D array reference parameter -> array parameter', 'pattern': 'ExecutionPort::type\\(&portBusy\\)\\[CYCLE_MAP_SIZE\\]\\[3\\]', 'repl': 'int portBusy[CYCLE_MAP_SIZE][3]'}, {'name': 'ExecutionPort::type -> int', 'pattern': 'ExecutionPort::type', 'repl': 'int'}, {'name': 'ExecutionPort constants', 'pattern': 'ExecutionPort::(P\\w+|Null)', 'repl': 'ExecutionPort_\\1'}], 'pre_rewrites': [{'name': 'trace output dropped', 'pattern': 'if \\(trace\\) std::cout.*?std::endl;', 'repl': ';'}, {'name': 'probe of one micro-op', 'pattern': 'scheduleUop<false>\\(', 'repl': 'rxv_uop_probe('}, {'name': 'commit of one micro-op', 'pattern': 'scheduleUop<true>\\(', 'repl': 'rxv_uop_commit('}, {'name': 'probe or commit by template parameter', 'pattern': 'scheduleUop<RXV_COMMIT>\\(', 'repl': 'rxv_uop_by_mode('}, {'name': 'macro-op attribute: dependent', 'pattern': 'mop\\.isDependent\\(\\)', 'repl': 'rxv_mop_dependent(&mop)'}, {'name': 'macro-op attribute: eliminated', 'pattern': 'mop\\.isEliminated\\(\\)', 'repl': 'rxv_mop_eliminated(&mop)'}, {'name': 'macro-op attribute: simple', 'pattern': 'mop\\.isSimple\\(\\)', 'repl': 'rxv_mop_simple(&mop)'}, {'name': 'macro-op attribute: uop1', 'pattern': 'mop\\.getUop1\\(\\)', 'repl': 'rxv_mop_uop1(&mop)'}, {'name': 'macro-op attribute: uop2', 'pattern': 'mop\\.getUop2\\(\\)', 'repl': 'rxv_mop_uop2(&mop)'}, {'name': 'std::max', 'pattern': 'std::max\\(', 'repl': 'RXV_MAX('}], 'must_fire': {'recipe rewrite: probe of one micro-op': 2, 'recipe rewrite: commit of one micro-op': 2, 'recipe rewrite: probe or commit by template parameter': 1}}
+
 # randomx_init_cache: std::string operations -> the abstract string model of the extractor prelude
 STR_OPS = [{"name": "local std::string -> rxv_string", "pattern": r"\bstd::string (\w+);", "repl": r"rxv_string \1 = { 0, 0, 0 };"},
            {"name": "std::string::assign -> rxv_string_assign", "pattern": r"\b(\w+(?:->\w+)*)\.assign\(", "repl": r"rxv_string_assign(&\1, "},
